@@ -340,6 +340,34 @@ def check_c(ctx, facts):
         ctx.violation('C05.c', 'settleAll-clears', 'the pending list is not emptied (exactly) after all wires were settled: '
                       'updates are lost or carried over to a later edge', where,
                       witness=dict(history='prepare on edge 1, nothing on edge 2: the stale value is re-applied or dropped'))
+    # who may write the pending list: only prepare() (registers) and settleAll() (empties after settling) of the wire hierarchy.  Any other code
+    # that rebinds, clears or edits it drops updates that were prepared for this edge, or carries them over.
+    attr = pending.split('.')[-1]
+    foreign = []
+    from ..facts import iter_functions
+    for rel, c, fn in iter_functions(facts):
+        if not rel.startswith('py4hw/'):
+            continue
+        if c is not None and any(k.name in ('Wire', 'BidirWire') for k in facts.mro(c)) and fn.name in ('prepare', 'settleAll'):
+            continue
+        for n in ast.walk(fn):
+            t = None
+            if isinstance(n, (ast.Assign, ast.AugAssign, ast.Delete)):
+                for tg in (n.targets if isinstance(n, (ast.Assign, ast.Delete)) else [n.target]):
+                    base = tg.value if isinstance(tg, ast.Subscript) else tg
+                    if isinstance(base, ast.Attribute) and base.attr == attr and isinstance(base.value, ast.Name) and base.value.id in ('Wire', 'BidirWire', 'self', 'cls'):
+                        if base.value.id in ('Wire', 'BidirWire') or (c is not None and any(k.name in ('Wire', 'BidirWire') for k in facts.mro(c))):
+                            t = norm(n)[:60]
+            if isinstance(n, ast.Call) and isinstance(n.func, ast.Attribute) and n.func.attr in ('clear', 'pop', 'remove', 'append', 'extend', 'insert') \
+                    and isinstance(n.func.value, ast.Attribute) and n.func.value.attr == attr and isinstance(n.func.value.value, ast.Name) and n.func.value.value.id in ('Wire', 'BidirWire'):
+                t = norm(n)[:60]
+            if t:
+                foreign.append((rel, (c.name + '.' if c else '') + fn.name, t))
+    for rel, q, t in foreign:
+        ctx.violation('C05.c', 'pending-list-writer:%s' % q, 'the pending list %s is written outside prepare() / settleAll(): `%s` - updates prepared for the current edge are dropped (or others carried over)'
+                      % (pending, t), '%s:%s' % (rel, q), witness=dict(history='a block prepares a wire, then this code runs before the edge commits (e.g. from inside a clock() method)'))
+    if not foreign:
+        ctx.ok('C05.c', 'pending-list-writers', 'only prepare() and settleAll() of the wire hierarchy write %s' % pending)
     n_prep = 0
     for c in wh:
         for mname in ('prepare',):
